@@ -90,6 +90,7 @@ def sensitivity(only=None, tier='quick', jobs=16, index='mutants/index.json', wi
     with open(os.path.join(here, index)) as f:
         muts = json.load(f)['mutants']
     missed = 0
+    results = []
     for i, m in enumerate(muts):
         if only and only not in (m['property'], os.path.basename(m['patch']), m.get('id')) and not os.path.basename(m['patch']).startswith(only):
             continue
@@ -114,6 +115,8 @@ def sensitivity(only=None, tier='quick', jobs=16, index='mutants/index.json', wi
                     caught.append((pid, cls))
                 elif r.returncode == 2:
                     print('  harness error while checking %s under %s: %s' % (pid, m['patch'], r.stdout[-400:]))
+            results.append({'patch': m['patch'], 'property': m['property'], 'expect': m.get('expect', 'violation'), 'what': m.get('what', ''), 'origin': m.get('origin', ''),
+                            'caught_by': [c[0] for c in caught], 'first_class': (caught[0][1][0].split('): ', 1)[-1] if caught and caught[0][1] else '')})
             if m.get('expect') == 'equivalent':
                 # a change that preserves the property must stay green: an alarm here would be a false alarm
                 if caught:
@@ -129,6 +132,12 @@ def sensitivity(only=None, tier='quick', jobs=16, index='mutants/index.json', wi
         finally:
             shutil.rmtree(d, ignore_errors=True)
     print('sensitivity: %d missed' % missed)
+    outp = os.environ.get('VERIF_SENS_OUT')
+    if outp:
+        prev = []
+        if os.path.exists(outp):
+            prev = [r for r in json.load(open(outp)) if r['patch'] not in {x['patch'] for x in results}]
+        json.dump(prev + results, open(outp, 'w'), indent=1)
     return 0 if missed == 0 else 1
 
 
